@@ -213,6 +213,27 @@ let handle fields impl : string option * string list =
          else []) in
       (Some m, mons)
     end
+  | ["inflight3"; k; l] ->
+    let kk = b (Util.bytes_of_hex k) and ll = b (Util.bytes_of_hex l) in
+    let st = rx_run false [EvOffer [kk]; EvGoroutineRuns (nat_ 0); EvOffer [kk; ll]; EvGoroutineRuns (nat_ 1);
+                           EvTransferEnds (nat_ 1); EvOffer [kk]; EvTransferEnds (nat_ 0); EvOffer [kk]] in
+    (* rx_accepted: newest offer first *)
+    let codes offered acc = String.concat "" (List.map (fun x -> if List.exists (fun a -> ub a = ub x) acc then "00" else "05") offered) in
+    let m = match st.rx_accepted with
+      | [a4; a3; a2; a1] ->
+        Printf.sprintf "ok o1=%s o2=%s o3=%s o4=%s d1=1 d2=1" (codes [kk] a1) (codes [kk; ll] a2) (codes [kk] a3) (codes [kk] a4)
+      | _ -> "panic" in
+    let mons =
+      if not (starts impl "ok") then ["inflight3-case-failed " ^ impl]
+      else begin
+        let o1 = field impl "o1" and o2 = field impl "o2" and o3 = field impl "o3" in
+        (* O1 accepted K and its transfer is still running when O2 and O3 arrive: K must not be accepted by either *)
+        (if o1 = "00" && String.length o2 >= 2 && String.sub o2 0 2 = "00" then
+           ["accepted-key-in-flight second offer accepted the key of a running transfer: o2=" ^ o2] else []) @
+        (if o1 = "00" && o3 = "00" then
+           ["accepted-key-in-flight the key of a still running transfer was accepted again after an overlapping offer finished: o3=" ^ o3] else [])
+      end in
+    (Some m, mons)
   | ["race"; _] ->
     if not (starts impl "ok") then (None, ["race-case-failed " ^ impl]) else begin
       let second = Util.bytes_of_hex (field impl "second") in
